@@ -112,6 +112,9 @@ func (s *ScopeSchema) ApplyNamespace(externalObjects map[string]*ObjectSchema, n
 	for _, v := range s.ObjectsValue {
 		v.ApplyNamespace(objectsToApply, namespace)
 	}
+	for _, v := range s.ObjectsValue {
+		v.checkDefaultExpansion()
+	}
 }
 
 func (s *ScopeSchema) ValidateReferences() error {
